@@ -41,7 +41,7 @@ def source_digest(repo):
         dirs.sort()
         for f in sorted(fs):
             files.append(os.path.join(root, f))
-    for f in ("Cargo.toml", "Cargo.lock", "build.rs"):
+    for f in ("Cargo.toml", "Cargo.lock", "build.rs", ".cargo/config.toml", ".cargo/config", "rust-toolchain.toml", "rust-toolchain"):
         p = os.path.join(repo, f)
         if os.path.exists(p):
             files.append(p)
